@@ -320,5 +320,10 @@ func (r *Report) Finish() int {
 	for _, l := range lines {
 		fmt.Println(l)
 	}
+	if os.Getenv("HV_LIST") != "" {
+		for _, o := range r.Obs {
+			fmt.Printf("OB %s %s %s %s | %s\n", o.Rule, o.Status, o.Pos, o.Func, o.Construct)
+		}
+	}
 	return exit
 }
